@@ -197,6 +197,36 @@ def eq_truth(p, pred=None, last=False):
     return None
 
 
+def none_quantifier(c):
+    """+1 if c is `any(x is None for x in s)` (true iff some element is None), -1 if c is `all(x is not None for x in s)` (true iff no
+    element is None), 0 for anything else - in particular for `any(x is not None ...)` / `all(x is None ...)`, which split the mixed case
+    (some given, some None) differently and are not the same test"""
+    if c[0] == "call" and callee(c) in ("builtins.any", "builtins.all") and c[2]:
+        g = unseq(c[2][0])
+        if g[0] == "comp" and g[2][0] == "cmp" and g[2][1] in ("is", "isnot") and g[2][3] == NONE and g[2][2] == ("elem", g[3], g[4]):
+            if callee(c) == "builtins.any" and g[2][1] == "is":
+                return 1
+            if callee(c) == "builtins.all" and g[2][1] == "isnot":
+                return -1
+    return 0
+
+
+def none_quantifiers(t):
+    """the none_quantifier atoms anywhere in a condition term"""
+    return [x for x in walk(t) if isinstance(x, tuple) and x and x[0] == "call" and none_quantifier(x)]
+
+
+def some_none(p):
+    """truth, on path p, of `some element of the tested sequence is None`, however the test was written; None if not decided"""
+    from .paths import lookup
+    for c, _v in p.conds:
+        for x in none_quantifiers(c):
+            t = lookup(p.decided, x)
+            if t is not None:
+                return t if none_quantifier(x) > 0 else (not t)
+    return None
+
+
 def arg_kw(call, name):
     """keyword `name` of a call term (None if absent)"""
     for k, v in call[3]:
